@@ -7,8 +7,8 @@ import (
 	"strings"
 	"sync"
 
-	"github.com/elnosh/gonuts/cashu"
 	"github.com/decred/dcrd/dcrec/secp256k1/v4"
+	"github.com/elnosh/gonuts/cashu"
 	"github.com/elnosh/gonuts/cashu/nuts/nut05"
 	"github.com/elnosh/gonuts/cashu/nuts/nut11"
 	"github.com/elnosh/gonuts/cashu/nuts/nut12"
@@ -112,7 +112,6 @@ func (ww *WW) seedLive(wname string) (int, int) {
 	}
 	return total, n
 }
-
 
 func (ww *WW) feeOf(mint string, proofs cashu.Proofs) int {
 	ms := ww.Mints[mint]
